@@ -31,7 +31,12 @@ case('c01-push-qrand-copy', ['C01', 'C03'], ['C01.admit'],
      (RRTC, "                state: q_new,\n                parent_index: Some(nearest_node_index),",
             "                state: q_other,\n                parent_index: Some(nearest_node_index),"))
 case('c01-kernel-skip-endpoint', ['C01'], ['C01.kernel'],
-     (RRTS, "            for i in 1..=num_steps {", "            for i in 1..num_steps {"))
+     (RRTS, "            // which rounding can make differ from it.\n            vc.is_valid(to)\n", "            // which rounding can make differ from it.\n            true\n"))
+case('c01-endpoint-defect-reintroduced', ['C01', 'C03'], ['C01.kernel'],
+     (PRM, "            for i in 1..num_steps {", "            for i in 1..=num_steps {"),
+     (PRM, "            // which rounding can make differ from it.\n            vc.is_valid(to)\n", "            // which rounding can make differ from it.\n            true\n"))
+case('benign-inclusive-loop-plus-endpoint', ['C01', 'C03', 'C06'], [],
+     (RRT, "            for i in 1..num_steps {", "            for i in 1..=num_steps {"))
 case('c01-kernel-short-true', ['C01'], ['C01.kernel'],
      (PRM, "            if num_steps <= 1 {\n                return vc.is_valid(to);\n            }",
            "            if num_steps <= 1 {\n                return true;\n            }"))
@@ -92,7 +97,7 @@ case('c07-fresh-rng-component', ['C07'], ['C07.flow'],
 case('c11-lost-normalise', ['C11'], ['C11.lost'],
      (SO2, "        *state = state.normalise();", "        state.normalise();"))
 case('c11-sample-dim0', ['C11'], ['C11.same'],
-     (RV, "            let (lower, upper) = self.bounds[i];\n\n            if !lower.is_finite()", "            let (lower, upper) = self.bounds[0];\n\n            if !lower.is_finite()"))
+     (RV, "            let (lower, upper) = self.bounds[i];\n\n            // The width has to be finite too", "            let (lower, upper) = self.bounds[0];\n\n            // The width has to be finite too"))
 case('c11-so3-accept-wide', ['C11'], ['C11.same'],
      (SO3, "                if distance <= *max_angle {\n                    return Ok(random_quat);", "                if distance <= *max_angle * 2.0 {\n                    return Ok(random_quat);"))
 case('c12-so2-check-raw', ['C12'], ['C12.stored'],
@@ -281,7 +286,9 @@ case('c08-explicit-panic', ['C08'], ['C08.panics'],
 
 # ---------------------------------------------------------------- benign refactors (must stay silent)
 case('benign-range-plus-one', ['C01', 'C03'], [],
-     (RRT, "            for i in 1..=num_steps {", "            for i in 1..num_steps + 1 {"))
+     (RRT, "            for i in 1..num_steps {", "            for i in 1..num_steps + 1 {"))
+case('benign-endpoint-named', ['C01', 'C03', 'C06'], [],
+     (RRT, "            // which rounding can make differ from it.\n            vc.is_valid(to)\n", "            let end_state_ok = vc.is_valid(to);\n            end_state_ok\n"))
 case('benign-rename-locals', ['C01', 'C03', 'C07'], [],
      (RRT, "            let mut q_new = q_near.clone();\n            if min_dist > self.max_distance {\n                // If q_rand is too far, interpolate to a point at max_distance\n                let t = self.max_distance / min_dist;\n                pd.space.interpolate(q_near, &q_rand, t, &mut q_new);\n            } else {\n                // If q_rand is close enough, just use it as q_new\n                q_new = q_rand;\n            }\n\n            // 5. Check if the motion to q_new is valid\n            if self.check_motion(q_near, &q_new) {\n                // 6. Add q_new to the tree\n                let new_node = Node {\n                    state: q_new.clone(),",
            "            let mut candidate = q_near.clone();\n            if min_dist > self.max_distance {\n                let frac = self.max_distance / min_dist;\n                pd.space.interpolate(q_near, &q_rand, frac, &mut candidate);\n            } else {\n                candidate = q_rand;\n            }\n            let q_new = candidate;\n\n            // 5. Check if the motion to q_new is valid\n            if self.check_motion(q_near, &q_new) {\n                // 6. Add q_new to the tree\n                let new_node = Node {\n                    state: q_new.clone(),"))
@@ -432,7 +439,7 @@ case('c14-so2-half-range', ['C14'], ['C14.draw'],
 case('c14-rv-average-of-two', ['C14'], ['C14.draw'],
      (RV, "            values.push(rng.random_range(lower..upper));", "            values.push((rng.random_range(lower..upper) + rng.random_range(lower..upper)) / 2.0);"))
 case('c14-rv-wrong-dimension-bounds', ['C14'], ['C14.draw'],
-     (RV, "            let (lower, upper) = self.bounds[i];\n\n            if !lower.is_finite()", "            let (lower, upper) = self.bounds[0];\n\n            if !lower.is_finite()"))
+     (RV, "            let (lower, upper) = self.bounds[i];\n\n            // The width has to be finite too", "            let (lower, upper) = self.bounds[0];\n\n            // The width has to be finite too"))
 seeded('seeded-R2C07-thread-rng-cone-c14', ['C14'], ['C14.so3'])
 case('benign-c14-so3-le-one', ['C14', 'C11', 'C06'], [],
      (SO3, "            if norm_sq > 1e-9 && norm_sq < 1.0 {", "            if norm_sq > 1e-9 && norm_sq <= 1.0 {"))
